@@ -83,7 +83,9 @@ META = {
         "that mapping - the uniquifier (compute_unique_slug, helpers followed) is handed the registry and every value it "
         "returns is, on every path, a name for which `name not in registry` was the last decided membership fact - so no "
         "heading's (slug -> section id, title) entry is overwritten. "
-        "The resolver reads that registry through the same access path below the environment as the renderer saved it. "
+        "The resolver reads that registry through the same access path below the environment as the renderer saved it, and "
+        "the element of the entry that the resolver passes to make_refnode as target id is read from the section node's "
+        "assigned ids (node['ids'] / nameids), not recomputed from the heading text (make_id, slug functions). "
         "R10 rewrite scope: a markdown-it env entry that the Sphinx link handlers read to rewrite destinations "
         "('relative-docs', set by the include mock around its nested render) is put back to its saved value (or popped, "
         "directly or by a restoring helper) on every normal and exceptional path after it was set, so that links after the "
@@ -186,10 +188,28 @@ def owner_class(corpus: Corpus, fi: FunctionInfo):
 def self_callee(corpus: Corpus, fi: FunctionInfo, call: ast.Call) -> FunctionInfo | None:
     """Target of ``self.m(...)`` resolved in the class of ``fi`` (package-internal MRO)."""
     f = call.func
-    if isinstance(f, ast.Attribute) and isinstance(f.value, ast.Name) and f.value.id == "self":
+    if isinstance(f, ast.Attribute) and isinstance(f.value, ast.Name) and f.value.id in ("self", "cls"):
         ci = owner_class(corpus, fi)
         if ci is not None:
             return corpus.lookup_method(ci, f.attr)
+        return None
+    # private helpers that are not methods: module-level functions (also imported from another package module)
+    # and `Class.method` of a class of this module
+    if isinstance(f, ast.Name):
+        o = fi
+        while o is not None:
+            if f.id in o.params or assignments_to(o, f.id):
+                return None  # a local callable
+            o = o.parent_func
+        if f.id in fi.module.functions:
+            t = fi.module.functions[f.id]
+            return t if t.cls is None and t.parent_func is None else None
+        full = fi.module.resolve(f.id)
+        if full.startswith("myst_parser."):
+            return corpus.find_function(full)
+        return None
+    if isinstance(f, ast.Attribute) and isinstance(f.value, ast.Name) and f.value.id in fi.module.classes:
+        return fi.module.classes[f.value.id].methods.get(f.attr)
     return None
 
 
@@ -2716,6 +2736,73 @@ def _returns_verified_absent(corpus: Corpus, callee: FunctionInfo, reg_param: st
     return bad
 
 
+RECOMPUTING_CALLS = ("make_id", "compute_unique_slug", "slugify", "default_slugify", "fully_normalize_name", "whitespace_normalize_name")
+
+
+def _id_provenance(fi: FunctionInfo, e: ast.expr | None, depth: int = 0) -> set[str]:
+    """IDS: read from a node's assigned ids (node['ids'][i] / .get('ids') / document.nameids / document.ids);
+    RECOMPUTED: derived from the heading text (make_id, slug functions, string building); ?: not traceable."""
+    if e is None or depth > 6:
+        return {"?"}
+    for x in ast.walk(e):
+        if isinstance(x, ast.Call):
+            nm = x.func.attr if isinstance(x.func, ast.Attribute) else (x.func.id if isinstance(x.func, ast.Name) else "")
+            if nm in RECOMPUTING_CALLS:
+                return {"RECOMPUTED"}
+    if isinstance(e, (ast.JoinedStr, ast.Constant)) or (isinstance(e, ast.BinOp) and isinstance(e.op, (ast.Add, ast.Mod))):
+        return {"RECOMPUTED"}
+    if isinstance(e, ast.Subscript):
+        if isinstance(e.slice, ast.Constant) and e.slice.value == "ids":
+            return {"IDS"}
+        if isinstance(e.value, ast.Attribute) and e.value.attr in ("nameids",):
+            return {"IDS"}
+        return _id_provenance(fi, e.value, depth + 1)
+    if isinstance(e, ast.Call) and isinstance(e.func, ast.Attribute) and e.func.attr == "get" and e.args and isinstance(e.args[0], ast.Constant) and e.args[0].value == "ids":
+        return {"IDS"}
+    if isinstance(e, ast.Call) and isinstance(e.func, ast.Name) and e.func.id in ("str", "cast", "next", "iter") and e.args:
+        return _id_provenance(fi, e.args[-1], depth + 1)
+    if isinstance(e, ast.IfExp):
+        return _id_provenance(fi, e.body, depth + 1) | _id_provenance(fi, e.orelse, depth + 1)
+    if isinstance(e, ast.BoolOp):
+        out: set[str] = set()
+        for v in e.values:
+            out |= _id_provenance(fi, v, depth + 1)
+        return out
+    if isinstance(e, ast.Name):
+        defs = assignments_to(fi, e.id)
+        if not defs:
+            return {"?"}
+        out = set()
+        for _, v, pos in defs:
+            if isinstance(pos, int) and isinstance(v, (ast.Tuple, ast.List)) and pos < len(v.elts):
+                v = v.elts[pos]
+            out |= _id_provenance(fi, v, depth + 1)
+        return out
+    return {"?"}
+
+
+def _targetid_index(res: FunctionInfo) -> int | None:
+    """Index of the slug-tuple element that the resolver passes to make_refnode as target id."""
+    tid = None
+    for c in res.local_nodes():
+        if isinstance(c, ast.Call) and res.module.resolve(dotted(c.func) or "") == "sphinx.util.nodes.make_refnode":
+            a = c.args[3] if len(c.args) > 3 else next((k.value for k in c.keywords if k.arg == "targetid"), None)
+            if isinstance(a, ast.Name):
+                tid = a.id
+    if tid is None:
+        return None
+    for st, v, pos in assignments_to(res, tid):
+        if isinstance(pos, int) and isinstance(v, ast.Subscript) and isinstance(v.value, ast.Name):
+            dd = assignments_to(res, v.value.id)
+            if dd and all(any((isinstance(x, ast.Constant) and x.value == "myst_slugs") or (isinstance(x, ast.Attribute) and x.attr == "myst_slugs") for x in ast.walk(d[1])) for d in dd):
+                return pos
+        if pos is None and isinstance(v, ast.Subscript) and isinstance(v.slice, ast.Constant) and isinstance(v.slice.value, int) and isinstance(v.value, ast.Subscript) and isinstance(v.value.value, ast.Name):
+            dd = assignments_to(res, v.value.value.id)
+            if dd and all(any((isinstance(x, ast.Constant) and x.value == "myst_slugs") or (isinstance(x, ast.Attribute) and x.attr == "myst_slugs") for x in ast.walk(d[1])) for d in dd):
+                return v.slice.value
+    return None
+
+
 def _env_path(e: ast.expr, fi: FunctionInfo | None = None) -> list[str] | None:
     """Access path of an expression below the Sphinx environment: ['metadata', '<doc>', "'myst_slugs'"] for
     env.metadata[docname]['myst_slugs'] (also spelled with .get / getattr and defaults); None if not rooted in env."""
@@ -2837,6 +2924,32 @@ def r8_slug_registry_no_overwrite(corpus: Corpus, rep: Report, tier: str):
                 rep.violation("C12.R8", k, site, problems[0] + f" - a repeated or literally numbered heading can take a slug that another heading already owns, and its {reg} entry (doc.md#slug -> section id, title) is overwritten")
             else:
                 rep.ok("C12.R8", k, site, "every value the uniquifier returns was tested absent from the registry it was given")
+    # the section id recorded for a slug is the id docutils assigned to the section, not a recomputed one
+    idx = _targetid_index(res)
+    if idx is None:
+        rep.error("C12.R8", "resolve_myst_ref_doc: cannot tell which element of the slug tuple becomes the target id of make_refnode")
+    else:
+        for m in corpus.cls(BASE_R).methods.values():
+            for st in m.local_nodes():
+                if not (isinstance(st, ast.Subscript) and isinstance(st.ctx, ast.Store) and dotted(st.value) == reg):
+                    continue
+                asg = parent(st)
+                val = asg.value if isinstance(asg, (ast.Assign, ast.AnnAssign)) else None
+                if isinstance(val, ast.Name):
+                    dd = assignments_to(m, val.id)
+                    val = dd[0][1] if len(dd) == 1 and dd[0][2] is None else val
+                k = f"{m.fq}|{reg}[...] = (.., id, ..)|id is the one docutils assigned"
+                site = m.module.site(st)
+                if not isinstance(val, ast.Tuple) or idx >= len(val.elts):
+                    rep.error("C12.R8", f"{m.qualname}: the value stored in {reg} is not a tuple display with an element {idx}")
+                    continue
+                prov = _id_provenance(m, val.elts[idx])
+                if "RECOMPUTED" in prov:
+                    rep.violation("C12.R8", k, site, f"element {idx} of the slug entry, `{short(val.elts[idx], 50)}`, is recomputed from the heading text instead of being read from the section node's ids (docutils de-duplicates ids: the second heading 'Usage' is id1, not usage), so `doc.md#usage-1` points at the first section or at nothing")
+                elif prov == {"IDS"}:
+                    rep.ok("C12.R8", k, site, unparse(val.elts[idx]))
+                else:
+                    rep.error("C12.R8", f"{m.qualname}: cannot trace where the recorded section id `{short(val.elts[idx], 40)}` comes from ({sorted(prov)})")
     rep.expect_min("C12.R8", 1, "self._heading_slugs[slug] = ... in generate_heading_target")
 
 
@@ -3326,4 +3439,12 @@ def mutants(corpus: Corpus):
         add("c12-slug-registry-read-from-other-place", "C12.R8", rf, rd, f'{unparse(inner.value)}.get("myst_slugs", {{}}).get({unparse(inner.slice)}, {{}})', expect="read from where")
     else:
         out.append(("c12-slug-registry-read-from-other-place", "reader of the slug registry not found"))
+    # --- round-6 seed class: the recorded section id is recomputed ---
+    f = bs.func("DocutilsRenderer.generate_heading_target")
+    stv = find_node(f, lambda n: isinstance(n, ast.Assign) and isinstance(n.targets[0], ast.Subscript) and unparse(n.targets[0].value) == "self._heading_slugs" and isinstance(n.value, ast.Tuple) and len(n.value.elts) == 3)
+    if stv is not None:
+        add("c12-slug-entry-id-recomputed", "C12.R8", bs, stv.value.elts[1], "nodes.make_id(implicit_text)", expect="docutils assigned")
+        add("c12-slug-entry-id-is-slug", "C12.R8", bs, stv.value.elts[1], "slug", expect="docutils assigned")
+    else:
+        out.append(("c12-slug-entry-id-recomputed", "slug entry store not found"))
     return out
